@@ -155,6 +155,10 @@ let handle line =
                  | None -> "{\"unmodelled\":true}") in
       "{\"col\":" ^ col ^ ",\"index\":" ^ idx ^ "}"
   | L [A "pdcast"; d; sr] -> "{\"cast\":" ^ jres (jlist jcell) (cast_series (ndt_of d) (series_of sr)) ^ "}"
+  | L [A "linkerctor"; name; keys] ->
+      let dummy = { fspan = { spkind = SList; splabels = [] }; fnames = []; fvars = []; fstatus = { sdt = NStr; scells = [] }; fiters = { sdt = NInt; scells = [] } } in
+      if linker_name_free (cell_of name) (List.map (fun k -> (cell_of k, dummy)) (list_of keys)) then "{\"ctor\":\"ok\"}"
+      else "{\"ctor\":{\"raise\":\"DuplicateNameError\"}}"
   | L [A "symbols"; ss] ->
       let t = symbols_to_table (List.map sym_of (list_of ss)) in
       let rt = match t with TOk tb -> jres (jlist jsym) (table_to_symbols tb) | _ -> "null" in
